@@ -40,8 +40,12 @@ NoTxn == [valid |-> FALSE]
 NoDry == [valid |-> FALSE]
 Props == {"C01", "C02", "C03", "C05", "C06", "C07", "C08", "C09", "M"}
 
+NoOpen == [id |-> "-", armed |-> FALSE, short |-> FALSE]
+OpenProj == [id |-> open.id, armed |-> open.armed]
+\* the open transaction after an event: what is observed, plus the timeout class of the Set that opened it
+NextOpen(o, short) == [id |-> o.open.id, armed |-> o.open.armed, short |-> (o.open.id # "-" /\ short)]
 Init == /\ l = 1 /\ intended = {} /\ mirror = <<>> /\ device = <<>> /\ ever = {}
-        /\ open = [id |-> "-", armed |-> FALSE] /\ txn = NoTxn /\ dry = NoDry
+        /\ open = NoOpen /\ txn = NoTxn /\ dry = NoDry
         /\ bad = {} /\ nt = [p \in Props |-> 0]
 
 \* names of the clauses that do not hold; cs is a set of <<property, clause, BOOLEAN>>
@@ -73,7 +77,7 @@ SetClauses(e, o) ==
   IF open.id # "-" THEN
      \* C06: a further TransactionSet is refused while one is open, without any effect
      {<<"C06", "SetRefusedWhileOpen", e.ret = "locked">>,
-      <<"C06", "RefusedSetNoEffect", NoEffect(e, o) /\ o.open = open>>}
+      <<"C06", "RefusedSetNoEffect", NoEffect(e, o) /\ o.open = OpenProj>>}
   ELSE IF ~wf THEN {<<"M", "RequestWellFormed", FALSE>>}
   ELSE IF applied THEN
      {<<"C01", "Converged", AdmConverged(o.d, I2)>>,
@@ -95,7 +99,8 @@ SetClauses(e, o) ==
       <<"C06", "NotWedgedAfterNoApply", o.open.id = "-">>}
   ELSE IF e.ret = "error" THEN
      {<<"C07", "AllOrNothing", e.devfail => (o.I = intended /\ o.m = mirror /\ o.d = device)>>,
-      <<"C07", "Unlocked", o.open.id = "-">>}
+      <<"C07", "Unlocked", o.open.id = "-">>,
+      <<"C06", "NotWedgedAfterError", o.open.id = "-">>}
   ELSE {<<"C06", "UnexpectedRefusal", FALSE>>}
 
 SetNT(e) ==
@@ -123,7 +128,8 @@ TxSet(e) ==
       applied == e.ret = "ok" /\ ~e.dry /\ open.id = "-"
   IN /\ bad' = bad \cup Failed(SetClauses(e, o), l)
      /\ nt' = Bump(SetNT(e))
-     /\ intended' = o.I /\ mirror' = o.d /\ device' = o.d /\ open' = o.open   \* env sync: mirror := device
+     /\ intended' = o.I /\ mirror' = o.d /\ device' = o.d   \* env sync: mirror := device
+     /\ open' = IF open.id = "-" THEN NextOpen(o, e.tmo < 5000) ELSE NextOpen(o, open.short)
      /\ ever' = IF applied THEN ever \cup LeavesOf(NewStore(intended, R)) \cup LeavesOf(o.I) ELSE ever
      /\ txn' = IF applied THEN [valid |-> TRUE, id |-> e.id, req |-> R, snap |-> SnapOf(intended, R), dev |-> device, I |-> intended]
                ELSE txn
@@ -151,9 +157,9 @@ Confirm(e) ==
         THEN {<<"C06", "ConfirmOk", e.ret = "ok">>, <<"C06", "ConfirmCloses", o.open.id = "-">>,
               <<"C06", "ConfirmKeepsState", Unchanged(e, o)>>}
         ELSE {<<"C06", "WrongIdFails", e.ret = "error">>,
-              <<"C06", "WrongIdNoEffect", Unchanged(e, o) /\ o.open = open>>}, l)
+              <<"C06", "WrongIdNoEffect", Unchanged(e, o) /\ o.open = OpenProj>>}, l)
   /\ nt' = Bump(IF ~Matches(e) /\ open.id # "-" THEN {"C06"} ELSE {})
-  /\ intended' = o.I /\ mirror' = o.d /\ device' = o.d /\ open' = o.open
+  /\ intended' = o.I /\ mirror' = o.d /\ device' = o.d /\ open' = NextOpen(o, open.short)
   /\ txn' = IF o.open.id = "-" THEN NoTxn ELSE txn
   /\ UNCHANGED <<ever, dry>>
 
@@ -163,22 +169,25 @@ Cancel(e) ==
         IF Matches(e) /\ open.armed
         THEN {<<"C05", "CancelOk", e.ret = "ok">>} \cup RollbackClauses(e, o)
         ELSE {<<"C06", "WrongIdFails", e.ret = "error">>,
-              <<"C06", "WrongIdNoEffect", Unchanged(e, o) /\ o.open = open>>}, l)
+              <<"C06", "WrongIdNoEffect", Unchanged(e, o) /\ o.open = OpenProj>>}, l)
   /\ nt' = Bump((IF ~Matches(e) /\ open.id # "-" THEN {"C06"} ELSE {})
                 \cup (IF Matches(e) /\ txn.valid /\ txn.I # intended /\ txn.dev # device THEN {"C05"} ELSE {}))
-  /\ intended' = o.I /\ mirror' = o.d /\ device' = o.d /\ open' = o.open
+  /\ intended' = o.I /\ mirror' = o.d /\ device' = o.d /\ open' = NextOpen(o, open.short)
   /\ txn' = IF o.open.id = "-" THEN NoTxn ELSE txn
   /\ ever' = ever \cup LeavesOf(o.I)
   /\ UNCHANGED dry
 
+\* time passes: more than the short transaction timeout, less than the long one
 Wait(e) ==
   LET o == Obs(e) IN
   /\ bad' = bad \cup Failed(
-        IF open.id = "-" THEN {<<"C06", "IdleWaitNoEffect", Unchanged(e, o) /\ o.open = open>>}
-        ELSE IF open.armed THEN RollbackClauses(e, o)
+        IF open.id = "-" THEN {<<"C06", "IdleWaitNoEffect", Unchanged(e, o) /\ o.open = OpenProj>>}
+        ELSE IF open.armed /\ open.short THEN RollbackClauses(e, o) \cup {<<"C06", "OneRollbackOnExpiry", Len(e.sets) <= 1>>}
+        ELSE IF open.armed THEN {<<"C06", "LongTransactionSurvivesWait", Unchanged(e, o) /\ o.open = OpenProj>>}
         ELSE {<<"C06", "NeverWedged", o.open.id = "-">>}, l)
-  /\ nt' = Bump(IF open.id # "-" /\ open.armed /\ txn.valid /\ txn.I # intended /\ txn.dev # device THEN {"C05", "C06"} ELSE {})
-  /\ intended' = o.I /\ mirror' = o.d /\ device' = o.d /\ open' = o.open
+  /\ nt' = Bump((IF open.id # "-" /\ open.armed /\ open.short /\ txn.valid /\ txn.I # intended /\ txn.dev # device THEN {"C05"} ELSE {})
+                \cup (IF open.id # "-" THEN {"C06"} ELSE {}))
+  /\ intended' = o.I /\ mirror' = o.d /\ device' = o.d /\ open' = NextOpen(o, open.short)
   /\ txn' = IF o.open.id = "-" THEN NoTxn ELSE txn
   /\ ever' = ever \cup LeavesOf(o.I)
   /\ UNCHANGED dry
@@ -186,13 +195,13 @@ Wait(e) ==
 Restart(e) ==
   LET o == Obs(e) IN
   /\ bad' = bad \cup Failed({<<"C07", "RestartKeepsStores", o.I = intended /\ o.d = device /\ o.m = mirror>>}, l)
-  /\ intended' = o.I /\ mirror' = o.m /\ device' = o.d /\ open' = o.open
+  /\ intended' = o.I /\ mirror' = o.m /\ device' = o.d /\ open' = NextOpen(o, FALSE)
   /\ txn' = NoTxn /\ dry' = NoDry
   /\ UNCHANGED <<ever, nt>>
 
 Reset(e) ==
   LET o == Obs(e) IN
-  /\ intended' = o.I /\ mirror' = o.m /\ device' = o.d /\ open' = o.open
+  /\ intended' = o.I /\ mirror' = o.m /\ device' = o.d /\ open' = NextOpen(o, FALSE)
   /\ ever' = {} /\ txn' = NoTxn /\ dry' = NoDry
   /\ bad' = bad \cup Failed({<<"M", "InitClean", o.I = {} /\ o.m = o.d /\ o.open.id = "-">>}, l)
   /\ UNCHANGED nt
